@@ -190,7 +190,7 @@ def _apply_defaults(sig, args, kwargs):
     for i, param in enumerate(sig.parameters.values()):
         if (
             i >= len(args)
-            and param.default != Parameter.empty
+            and param.default is not Parameter.empty
             and param.name not in kwargs
         ):
             kwargs[param.name] = param.default
